@@ -16,10 +16,6 @@ require (
 	github.com/containerd/continuity v0.4.1 // indirect
 	github.com/planetscale/vtprotobuf v0.6.0 // indirect
 	github.com/sirupsen/logrus v1.8.1 // indirect
-<<<<<<< HEAD
-	github.com/tonistiigi/dchapes-mode v0.0.0-20250318174251-73d941a28323 // indirect
-=======
->>>>>>> wip-c13
 	golang.org/x/sync v0.1.0 // indirect
 )
 
